@@ -32,6 +32,8 @@ visible), and `k1_straggler_lost` shows that this does happen.
 import MetricsVerif.Proofs.Bucket
 import MetricsVerif.Proofs.BucketAll
 import MetricsVerif.Proofs.BucketClear
+import MetricsVerif.Proofs.BucketSnap
+import MetricsVerif.Proofs.BucketEmpty
 import MetricsVerif.Proofs.MsgPass
 import MetricsVerif.Proofs.SrcShapes
 import MetricsVerif.Generated.SourceFacts
@@ -272,5 +274,177 @@ theorem src_no_early_read (roles : List Bool) (sched : List Nat) :
   have h := src_bucket_orderings
   refine ⟨(publish_consume_no_race _ roles sched).2 ?_ ?_, (publish_consume_no_race _ roles sched).1,
           (publish_consume_no_race _ roles sched).2 ?_ ?_⟩ <;> simp [h.1, h.2]
+
+/-! ### "stays visible", snapshot completeness, and the unbounded quiescence wait
+
+Second sentence of the property: a snapshot read accounts for at least every value whose push completed before the
+read began and that no clear has taken; values of one block appear in push order. -/
+
+/-- **stays visible, in place**: in ANY run of ANY programs, what `Block::data` returns for a block only ever grows,
+    as a prefix — a value that was once readable in a block stays readable in that block, at the same position, in
+    the same (slot-claim = push) order, whatever pushers, readers and clearers do afterwards. (A clear detaches
+    blocks from the tail; it never changes what a block holds.) -/
+theorem data_only_grows (s : Sys) (sched : List Nat) (k : Nat) :
+    (getBlock s k).data <+: (getBlock (run s sched) k).data := run_data_prefix sched s k
+
+/-- a published value is never un-published or overwritten: per block, per value, the number of published slots
+    holding it never decreases, in any step of any thread -/
+theorem published_never_retracted (s : Sys) (tid k v : Nat) :
+    pubc v (getBlock s k).cells ≤ pubc v (getBlock (step s tid) k).cells :=
+  pubc_of_cellsStep v _ _ (step_cells s tid k)
+
+/-- `Block::is_quiesced` ⇒ `Block::data` hands out EVERY claimed slot of the block (for any block size; `hl` is the
+    structural invariant `cells_len` of `all_threads_structural`) -/
+theorem quiesced_read_is_complete (B : Nat) (b : Block) (hl : b.cells.length = min b.write B)
+    (hq : b.quiesced B = true) : b.data = b.cells.map Cell.val := quiesced_data_all B b hl hq
+
+/-- **the wait is unbounded**: a snapshot reader or clearer parked in its quiescence wait on a block that is not
+    quiesced stays in the wait — there is no give-up path; it leaves (to the read step) exactly when the block is
+    quiesced. The state is not touched. -/
+theorem wait_is_unbounded (s : Sys) (t : Thread) (blk : Nat) :
+    (t.pc = .dWait blk ∨ t.pc = .dQuiesced blk →
+        (stepThread s t).1 = s ∧ (stepThread s t).2.pc = if (getBlock s blk).quiesced s.B then .dRead blk else .dWait blk)
+    ∧ (t.pc = .cWait blk ∨ t.pc = .cQuiesced blk →
+        (stepThread s t).1 = s ∧ (stepThread s t).2.pc = if (getBlock s blk).quiesced s.B then .cRead blk else .cWait blk) := by
+  refine ⟨fun h => ?_, fun h => ?_⟩ <;> rcases h with h | h <;> simp [stepThread, h]
+
+/-- programs in which no thread ever calls `clear` / `clear_with` -/
+def NoClear (progs : List (List Call)) : Prop := ∀ p ∈ progs, Call.clear ∉ p
+
+/-- **snapshot completeness** (pushers, snapshot readers and is_empty callers; any number of threads and calls, any
+    block size, EVERY schedule): take any moment `s1` at which thread `i` is about to start a `data_with` (it is at
+    the call's first shared-memory step). Whatever happens afterwards (`s2`) — however long the reader has to wait
+    for stalled writers, however many blocks are handed over meanwhile — when that call has returned `vs`, every
+    value whose publish step (the last step of its `push`) had run before `s1` is in `vs`, with multiplicity. -/
+theorem snapshot_complete (B : Nat) (progs : List (List Call)) (hnc : NoClear progs) (s1 s2 : List Nat) (i : Nat)
+    (t0 t1 : Thread)
+    (h0 : (run (init B progs) s1).threads[i]? = some t0) (hpc : t0.pc = .dLoadTail)
+    (h1 : (run (init B progs) (s1 ++ s2)).threads[i]? = some t1)
+    (vs : List Nat) (hres : t1.results = t0.results ++ [.snapshot vs]) (v : Nat) :
+    pubCount v (run (init B progs) s1) ≤ vs.count v := by
+  have hinv0 : SnapInv (run (init B progs) s1).blocks t0.results i (run (init B progs) s1) :=
+    { base := all_threads_structural B progs s1
+      chain := crun s1 _ (init_cinv B progs hnc)
+      len := Nat.le_refl _
+      mono := fun k v => by unfold blk0 getBlock; exact Nat.le_refl _
+      rd := ⟨t0, h0, Or.inl ⟨rfl, by rw [hpc]; trivial⟩⟩ }
+  have hinv := snap_run s2 _ hinv0
+  have hrun : run (run (init B progs) s1) s2 = run (init B progs) (s1 ++ s2) := by
+    simp [run, List.foldl_append]
+  rw [hrun] at hinv
+  obtain ⟨t, ht, hr⟩ := hinv.rd
+  rw [h1] at ht; injection ht with ht; subst ht
+  rcases hr with ⟨hsame, _⟩ | ⟨vs', rest, hres', hv⟩
+  · rw [hsame] at hres
+    have := congrArg List.length hres
+    simp at this
+  · rw [hres'] at hres
+    have h2 := List.append_cancel_left hres
+    simp only [List.cons.injEq, Res.snapshot.injEq] at h2
+    obtain ⟨rfl, _⟩ := h2
+    exact hv v
+
+/-- with a clear in the programs the statement is FALSE of the code (known finding K-C05-K1 again): the straggler's
+    push has completed (its value is published) before the snapshot of thread 3 begins, no clear has taken it
+    (`delivered = [1]`), and the snapshot returns nothing -/
+theorem snapshot_incomplete_with_clear :
+    let progs : List (List Call) := [[.push 1], [.push 2], [.clear], [.data]]
+    let s1 := [0, 1, 2, 0, 0, 0, 0, 1, 2, 2, 2, 2, 2, 1, 1, 3]
+    let s := run (init 2 progs) s1
+    let s' := run (init 2 progs) (s1 ++ [3])
+    (s.threads[3]?.map (·.pc)) = some .dLoadTail
+    ∧ pubCount 2 s = 1 ∧ delivered s = [1]
+    ∧ (s'.threads[3]?.map (·.results)) = some [.snapshot []] := by decide
+
+/-- non-vacuity for `snapshot_complete`: a reader that has to wait for a stalled writer (slot 0 claimed, not
+    published) while a second pusher completes above it and hands the block over (block size 2): the snapshot that
+    began after `3` was published returns it -/
+example :
+    let progs : List (List Call) := [[.push 1], [.push 3, .push 4], [.data]]
+    let s1 := [0, 0, 0, 0, 1, 1, 1, 1, 2]
+    let s2 := [2, 2, 2, 1, 1, 1, 1, 1, 2, 2, 0, 2, 2, 2, 2, 2, 2]
+    ((run (init 2 progs) s1).threads[2]?.map (·.pc)) = some .dLoadTail
+    ∧ pubCount 3 (run (init 2 progs) s1) = 1
+    ∧ ((run (init 2 progs) (s1 ++ s2)).threads[2]?.map (·.results)) = some [.snapshot [1, 3]] := by decide
+
+/-- **is_empty completeness** (programs without clears; any number of threads and calls, any block size, EVERY
+    schedule): an `is_empty` that is at its first shared-memory step in a state where some value's publish step has
+    already run answers `false` — whatever happens in between, including hand-overs to newer blocks and slots still
+    in flight below the published one (the former K3). Rests on: claim counters only grow, and every block below
+    the newest has had a slot claimed (a block is only replaced by a pusher whose claim on it failed). -/
+theorem is_empty_complete (B : Nat) (progs : List (List Call)) (hnc : NoClear progs) (s1 s2 : List Nat) (i : Nat)
+    (t0 t1 : Thread)
+    (h0 : (run (init B progs) s1).threads[i]? = some t0) (hpc : t0.pc = .eLoadTail)
+    (h1 : (run (init B progs) (s1 ++ s2)).threads[i]? = some t1)
+    (e : Bool) (hres : t1.results = t0.results ++ [.empty e]) (v : Nat)
+    (hv : 1 ≤ pubCount v (run (init B progs) s1)) : e = false := by
+  have hinv0 : EmpInv (run (init B progs) s1).blocks t0.results i (run (init B progs) s1) :=
+    { w := wrun s1 _ (init_winv B progs hnc)
+      len := Nat.le_refl _
+      mono := fun k v => by unfold blk0 getBlock; exact Nat.le_refl _
+      rd := ⟨t0, h0, Or.inl ⟨rfl, by rw [hpc]; trivial⟩⟩ }
+  have hinv := emp_run s2 _ hinv0
+  have hrun : run (run (init B progs) s1) s2 = run (init B progs) (s1 ++ s2) := by
+    simp [run, List.foldl_append]
+  rw [hrun] at hinv
+  obtain ⟨t, ht, hr⟩ := hinv.rd
+  rw [h1] at ht; injection ht with ht; subst ht
+  obtain ⟨j, hj⟩ := needFrom_pos v _ (run (init B progs) s1).blocks.length 0 (by omega) hv
+  rcases hr with ⟨hsame, _⟩ | ⟨e', rest, hres', he⟩
+  · rw [hsame] at hres
+    have := congrArg List.length hres
+    simp at this
+  · rw [hres'] at hres
+    have h2 := List.append_cancel_left hres
+    simp only [List.cons.injEq, Res.empty.injEq] at h2
+    obtain ⟨rfl, _⟩ := h2
+    exact he ⟨j, v, hj⟩
+
+/-- with a clear in the programs `is_empty` completeness is FALSE of the code as well (K-C05-K1): the straggler's
+    value is published, no clear took it, and `is_empty` answers `true` -/
+theorem is_empty_incomplete_with_clear :
+    let progs : List (List Call) := [[.push 1], [.push 2], [.clear], [.isEmpty]]
+    let s1 := [0, 1, 2, 0, 0, 0, 0, 1, 2, 2, 2, 2, 2, 1, 1, 3]
+    let s := run (init 2 progs) s1
+    let s' := run (init 2 progs) (s1 ++ [3])
+    (s.threads[3]?.map (·.pc)) = some .eLoadTail
+    ∧ pubCount 2 s = 1 ∧ delivered s = [1]
+    ∧ (s'.threads[3]?.map (·.results)) = some [.empty true] := by decide
+
+/-- non-vacuity for `is_empty_complete`: slot 0 is claimed and still in flight, slot 1 is published (the former K3
+    shape, block size 2): `is_empty` answers `false` -/
+example :
+    let progs : List (List Call) := [[.push 1], [.push 3], [.isEmpty]]
+    let s1 := [0, 0, 0, 0, 1, 1, 1, 1, 2]
+    ((run (init 2 progs) s1).threads[2]?.map (·.pc)) = some .eLoadTail
+    ∧ pubCount 3 (run (init 2 progs) s1) = 1 ∧ pubCount 1 (run (init 2 progs) s1) = 0
+    ∧ ((run (init 2 progs) (s1 ++ [2, 2])).threads[2]?.map (·.results)) = some [.empty false] := by decide
+
+/-! ### source facts for the paths the step machine does not model in detail -/
+
+open MetricsVerif.Src in
+/-- SOURCE FACT (regenerated on every run): both quiescence waits (`data_with`, `clear_with`) are plain
+    `while !block.is_quiesced() { snooze }` loops — one per function, with no `break` / `return` / `continue`, no
+    conditional and no look at the back-off's completion inside: the only way out is the loop condition (this is what
+    `wait_is_unbounded` models). `Block::data` reads the length once. `is_empty` decides on `is_unclaimed` of the tail
+    and of its predecessor, which loads `write` (claimed slots), not the published length. `Block::drop` waits for
+    quiescence and drops slots `0..len`. `clear_with` collects every block it walked, defers their destruction
+    (batches of 32, the batch branch has no early exit) and flushes; every entry point pins the epoch once, before it
+    touches `tail`. -/
+theorem src_bucket_wait_and_reclaim :
+    Generated.bucket_data_wait_exits = [] ∧ Generated.bucket_clear_wait_exits = []
+    ∧ Generated.bucket_quiesce_loops = ["1", "1"]
+    ∧ names Generated.shape_block_data = ["self.len", "slots.get_unchecked"]
+    ∧ Generated.shape_block_is_unclaimed = [("write.load", ["Acquire"])]
+    ∧ names Generated.shape_block_next_is_unclaimed = ["next.load", "tail_block.is_unclaimed"]
+    ∧ names Generated.shape_bucket_is_empty_calls = ["tail.load", "tail_block.is_unclaimed", "tail_block.next_is_unclaimed"]
+    ∧ names Generated.shape_block_drop = ["self.is_quiesced", "self.len", "_.drop_in_place"]
+    ∧ Generated.block_drop_range = "0..len"
+    ∧ names Generated.shape_bucket_clear_reclaim
+        = ["tail.load", "tail.compare_exchange", "next.load", "freeable_blocks.push", "guard.defer_unchecked",
+           "block.into_owned", "guard.defer_unchecked", "block.into_owned", "guard.flush"]
+    ∧ Generated.bucket_deferred_batch = "32" ∧ Generated.bucket_batch_branch_exits = []
+    ∧ Generated.bucket_epoch_pins
+        = ["is_empty:1:pin-first", "push:1:pin-first", "data_with:1:pin-first", "clear_with:1:pin-first"] := by decide
 
 end MetricsVerif.C05
